@@ -249,6 +249,9 @@ def run(prog, rep, tier):
                   "the sampled response is not the training row the weights point at: " + why)
     except Inconclusive as e:
         rep.unk("FOREST.sample-rows", fwhere(f6), "drf.predict left the modelled fragment: %s" % e.why)
+    # ---------------------------------------------------------------- the `graph is not a DAG -> ValueError` clause rests on is_dag being exact
+    from .C03 import acyclicity_core
+    acyclicity_core(rep, prog)
     # ---------------------------------------------------------------- RNG
     rng_rules(rep, prog, f4)
     rng_rules(rep, prog, f5)
